@@ -105,6 +105,16 @@ CHECKS = {
              "judged on every record.",
         design="6 (C07)", technique="TLA+ defect-injecting generator + TLC exhaustive kernel/simulation + trace validation of diagnostics",
         note=DOC_NOTE + " Replay of the defect kernel is stratified per defect class at the quick tier."),
+    "C14": dict(
+        text="The two block scanners are specified at the level of lines (spec/CookBlocks.tla: which lines start a token "
+             "line given escaped newlines and multi-line block comments, which `>>` lines each scanner turns into entries, "
+             "front matter switching old-style metadata off) and folded through CookAnalysis!AMeta; TLC checks "
+             "MetaScanAgrees on every line sequence up to a bound x {front matter} x {LF, CRLF} under all/no extensions and "
+             "prints each document with the map both parses must return. The real parse / parse_metadata pairs for those "
+             "documents, the plain corpora and CookDoc walks under several extension subsets are judged by TLC "
+             "(spec/Trace_Meta.tla): both have output => equal maps (order included); the predicted map is compared as drift.",
+        design="6 (C14), 3.3", technique="TLA+ line-level model of both scanners + TLC exhaustive line sequences + trace validation of paired parses",
+        note=DOC_NOTE),
     "C17": dict(
         text="For every finished document CookDoc also prints 13 variants built from marks the generator itself places "
              "(item separators, block starts, Cooklang line ends, fences): CRLF, trailing comments/blanks/tabs, block "
@@ -115,6 +125,19 @@ CHECKS = {
              "token, comments are tokens).",
         design="6 (C17)", technique="TLA+ generator printing metamorphic variants + TLC simulation + trace validation of paired parses",
         note=DOC_NOTE),
+    "C18": dict(
+        text="spec/CookShared.tla models threads calling one shared parser with the process-wide lazily built fraction "
+             "table as a LazyLock (one builder, others wait); TLC explores every interleaving of 3 threads x 2 inputs "
+             "within a call bound and checks Deterministic (a broken check-then-set sibling, CookSharedRacy, is kept to show "
+             "TLC finds the hazard class). Histories are then recorded from the real library in fresh processes: 8 threads "
+             "released by a barrier on one parser, then a long sequential history (every input after every other, "
+             "parse / parse_metadata / parse_with_options(validator) / parse+scale+convert+group), with the baseline of "
+             "every (operation, input) from a fresh parser; TLC validates each history against the model's notion of an "
+             "explainable history (spec/Trace_Shared.tla): per-thread Begin/End alternation and every End carrying the "
+             "sequential baseline.",
+        design="6 (C18), 3.11", technique="TLA+ concurrency model checked exhaustively + trace validation of recorded multi-thread and sequential histories",
+        note="Trusted: TLC; a 64-bit hash of JSON image + ordered diagnostics stands for the result. Real thread schedules are "
+             "those the OS produces (their number is reported), not an exhaustive set."),
 }
 
 NOT_YET = "check not built yet in this session (work in progress, see DESIGN.md section 10)"
